@@ -271,6 +271,9 @@ func (c *EWCase) Run() string {
 			if isUndef(v) {
 				hasUndef = true
 			}
+			if (c.A.Mask != nil && c.A.Mask[k]) || (c.B != nil && c.B.Mask != nil && c.B.Mask[k]) {
+				v = maskedOut // nothing is stated about positions that are masked in an operand
+			}
 			exp[k] = v
 		}
 	}
@@ -692,3 +695,6 @@ func subVal(a, b interface{}) interface{} {
 	}
 	return a
 }
+
+// maskedOut marks positions masked in an operand (treated like undefined ones by the comparison).
+var maskedOut = undefinedVal{}
